@@ -313,11 +313,19 @@ Fixpoint list_eqb (a b : list N) : bool :=
   | _, _ => false
   end.
 
+(* compound-file names compare up to the case of their ASCII letters (str::eq_ignore_ascii_case in
+   Cfb::find since the fix of audit-2 finding CFB-1; [MS-CFB] 2.6.4 compares after upper-casing):
+   the stream of a module is found when the directory spells it in another case than the
+   MODULESTREAMNAME record does.  (= Cfb.name_eqb; kept local, this file does not depend on Cfb.v) *)
+Definition sn_upper (c : N) : N := if (97 <=? c) && (c <=? 122) then c - 32 else c.
+Definition sn_key (n : list N) : list N := map sn_upper n.
+Definition sn_eqb (a b : list N) : bool := list_eqb (sn_key a) (sn_key b).
+
 (* cfb.get_stream(name, r): the first directory entry of that name (the container is C13's) *)
 Fixpoint get_stream (streams : list (list N * list N)) (name : list N) : outcome (list N) :=
   match streams with
   | [] => Err E_STREAM
-  | (n, b) :: rest => if list_eqb n name then Ok b else get_stream rest name
+  | (n, b) :: rest => if sn_eqb n name then Ok b else get_stream rest name
   end.
 
 (* mods.into_iter().map(|m| get_stream(..).and_then(|s| decompress_stream(&s[off..]))).collect() *)
